@@ -394,11 +394,11 @@ def inline_multiline_shape(text: str) -> str:
     stack = [root]
     while stack:
         n = stack.pop(0)
-        if n.type in ("attrset_expression", "list_expression") and n.start_point.row != n.end_point.row:
+        if n.type in ("attrset_expression", "list_expression") and n.start_point[0] != n.end_point[0]:
             kids = [k for k in n.named_children]
             if n.type == "attrset_expression":
                 kids = [b for k in kids if k.type == "binding_set" for b in k.named_children]
-            if kids and kids[0].start_point.row == n.start_point.row:
+            if kids and kids[0].start_point[0] == n.start_point[0]:
                 return "inline-attrset-multiline-child" if n.type == "attrset_expression" else "inline-list-multiline-child"
         stack[0:0] = list(n.named_children)
     return "other"
